@@ -14,6 +14,12 @@ MI = [Clause('invariant_of(self.type)', label='RI-of-the-section-type'),
              'slot_ok(self.type._children[i][1], self._values)))', label='MI-slot-kinds'),
       Clause("forall('int', 'str', lambda i, x: implies(0 <= i and i < len(self.type._children), "
              'entry_ok(self.type._children[i][1], self._values, x)))', label='MI-wildcard-entries')]
+# before a matcher is finished its slots hold collected values only (ValueInfo / section values),
+# never converted ones: what finish() / constuct() rely on when they convert (C02, C07).  `finished`
+# is a ghost flag set on entry to constuct().
+MI.append(Clause('implies(not self.finished, forall(lambda i: implies(0 <= i and i < len(self.type._children), '
+                 'kinds_ok(self.type._children[i][1], self._values[val(self.type._children[i][1].attribute)]))))',
+                 carries='C02,C07', label='MI-unconverted-until-finished'))
 model('matcher.BaseMatcher',
       fields={'info': 'Ref[InfoLike]', 'type': 'Ref[info.SectionType]', '_values': 'Map[str, Slot]',
               '_sectionnames': 'Map[str, str]', 'handlers': 'Ref[list:handlers]'},
@@ -81,6 +87,7 @@ SLOT_IDX = 'slot_search(self.type, 0, type_, name)'
 S_ATTR = 'val(self.type._children[%s][1].attribute)' % SLOT_IDX
 contract('matcher.BaseMatcher.addSection',
          params={'type_': 'str', 'name': 'Opt[str]', 'sectvalue': 'Ref[matcher.SectionValue]'},
+         requires=[Clause('sv_ready(sectvalue)', label='the-section-value-comes-from-a-matcher-whose-type-has-a-section-datatype')],
          modifies=['self._values', 'self._sectionnames'],
          inst=[SLOT_IDX],
          ensures=[Clause("implies(name is not None and name != '', val(name) not in old(self._sectionnames) and "
@@ -137,7 +144,9 @@ contract('matcher.BaseMatcher.createChildMatcher',
 
 # ---- closing a container --------------------------------------------------------------------------------------
 contract('matcher.BaseMatcher.createValue', returns='Ref[matcher.SectionValue]', fresh_result=True,
-         ensures=[Clause('fresh(result) and result._matcher == self and result._name is None', carries='C02'),
+         ensures=[Clause("fresh(result) and result._matcher == self and "
+                         "result._name == (cast(self, 'matcher.SectionMatcher').name if isa(self, 'matcher.SectionMatcher') else None)",
+                         carries='C02', label='reports-its-name-if-it-has-one'),
                   Clause('result._dict == self._values and result._attributes == keys(self._values)',
                          carries='C02', label='exposes-exactly-the-attributes')])
 contract('matcher.SectionMatcher.createValue', returns='Ref[matcher.SectionValue]', fresh_result=True,
@@ -166,13 +175,81 @@ VALUE_OF = [Clause('fresh(result) and result._matcher == self and result._dict =
                    'result._attributes == keys(self._values)', carries='C02', label='value-exposes-exactly-the-attributes'),
             Clause("result._name == (cast(self, 'matcher.SectionMatcher').name if isa(self, 'matcher.SectionMatcher') else None)",
                    carries='C02', label='reports-its-name')]
-assumed('matcher.BaseMatcher.constuct', returns='Ref[matcher.SectionValue]', fresh_result=True,
-        modifies=['self._values', 'self.handlers.items'],
-        ensures=[Clause(CONV_ALL, carries='C02', label='every-attribute-converted-as-its-kind-demands'),
-                 Clause('keys(self._values) == keys(old(self._values))', carries='C02', label='same-attributes')] + VALUE_OF,
-        raises=[Raise('ZConfig.DataConversionError', then=[Clause('exc.has_lineno')])],
-        notes='NOT YET VERIFIED (nested loops and comprehensions over the tagged slots): the conversion step of '
-              'finish(); decided by the bounded stand-ins of C02 / C16')
+READY_ALL = ('forall(lambda i: implies(0 <= i and i < len(self.type._children), '
+             'kinds_ok(self.type._children[i][1], self._values[%s])))' % ATTR_I)
+CHILDREN_READY = ('forall(lambda i: implies(0 <= i and i < len(self.type._children), '
+                  'child_ready(self.type._children[i][1])))')
+K_ATTR = 'val(self.type._children[k][1].attribute)'
+C_DONE = ('forall(lambda k: implies(0 <= k and k < _i0, '
+          'conv_ok(self.type._children[k][1], old(self._values)[%s], self._values[%s])))' % (K_ATTR, K_ATTR))
+C_TODO = ('forall(lambda k: implies(_i0 <= k and k < len(self.type._children), '
+          'self._values[%s] == old(self._values)[%s]))' % (K_ATTR, K_ATTR))
+CUR = 'self._values[val(attr)]'
+ONLY_ATTR = 'self._values == updated(entry(self._values), val(attr), self._values[val(attr)])'
+M0 = "alt(entry(self._values)[val(attr)], 'kmap')"
+MM = "alt(self._values[val(attr)], 'kmap')"
+DD = "alt(default_of(ci), 'kmap')"
+
+
+STEP = [At("child_ready(ci) and implies(not isa(ci, 'info.SectionInfo'), key_kinds_ok(ci, default_of(ci))) and "
+           "kinds_ok(ci, self._values[val(ci.attribute)])", stmt='Assert', nth=0, label='this-key-has-a-datatype-and-unconverted-defaults'),
+        At("conv_ok(ci, old(self._values)[val(attr)], self._values[val(attr)])", stmt='If', nth=9, carries='C02',
+           label='this-child-converted-as-its-kind-demands')]
+
+
+ENTRY_SHAPE = "forall('str', lambda x: implies(x in %s, is_alt(%s[x], 'lst') == (ci.maxOccurs > 1)))" % (MM, MM)
+COMPLETED = ('forall(lambda i: implies(0 <= i and i < len(self.type._children), '
+             'self._values[%s] == complete_slot(self.type._children[i][1], self._values[%s])))' % (ATTR_I, ATTR_I))
+
+
+def _kmap_loop(idx, conv):
+    return Loop(invariant=[Clause("is_alt(self._values[val(attr)], 'kmap')", label='still-a-mapping'),
+                           Clause(ONLY_ATTR, label='only-this-attribute-changes'),
+                           Clause('keys(%s) == keys(%s)' % (MM, M0), label='same-keys-same-order'),
+                           Clause(ENTRY_SHAPE, label='entries-keep-their-shape'),
+                           Clause("forall('str', lambda x: implies(x in keys(%s)[:%s], %s))"
+                                  % (M0, idx, conv % {'b': M0 + '[x]', 'a': MM + '[x]'}), label='entries-so-far-converted'),
+                           Clause("forall('str', lambda x: implies(x in %s and x not in keys(%s)[:%s], %s[x] == %s[x]))"
+                                  % (M0, M0, idx, MM, M0), label='later-entries-untouched')],
+                hints=['mitem_conv(ci, %s[key], %s[key])' % (M0, MM)],
+                locals={'key': 'str', 'val': 'MItem'}, modifies=['self._values'])
+
+
+contract('matcher.BaseMatcher.constuct', returns='Ref[matcher.SectionValue]', fresh_result=True,
+         requires=[Clause(READY_ALL, label='nothing-converted-yet'),
+                   Clause(COMPLETED, label='defaults-already-filled-in'),
+                   Clause('invariant_of(self.type)', label='RI-of-the-section-type (every key child has a datatype and unconverted defaults)')],
+         modifies=['self._values', 'self.handlers.items', 'self.finished'],
+         ghost_entry=[('finished', 'True')], asserts=STEP,
+         ensures=[Clause(CONV_ALL, carries='C02', label='every-attribute-converted-as-its-kind-demands'),
+                  Clause('keys(self._values) == keys(old(self._values))', carries='C02', label='same-attributes')] + VALUE_OF,
+         raises=[Raise('ZConfig.DataConversionError', then=[Clause('exc.has_lineno')], carries='C01,C08',
+                       label='a-value-does-not-convert')],
+         loops=[Loop(invariant=[Clause(C_DONE, label='children-so-far-converted'),
+                                Clause(C_TODO, label='later-children-untouched'),
+                                Clause('keys(self._values) == keys(old(self._values))', label='same-attributes'),
+                                Clause('self.finished'),
+                                ] + MI[1:],
+                     locals={'name': 'Opt[str]', 'ci': 'Ref[info.BaseInfo]', 'attr': 'str', 'v': 'Slot'},
+                     modifies=['self._values', 'self.handlers.items']),
+                # multisection: the section values in file order, each through its own section datatype
+                Loop(invariant=[Clause('len(v) == _i1'),
+                                Clause("forall(lambda j: implies(0 <= j and j < _i1, "
+                                       "sect_conv(alt(%s, 'lst')[j], v[j])))" % CUR, label='sections-so-far-converted')],
+                     locals={'v': 'Seq[Item]', 's': 'Item', 'st': 'Ref[info.SectionType]'}, modifies=[]),
+                # wildcard multikey: every entry's list converted in place
+                _kmap_loop('_i2', 'mitem_conv(ci, %(b)s, %(a)s)'),
+                # wildcard key, no key in the text: the schema defaults, converted
+                Loop(invariant=[Clause("is_alt(self._values[val(attr)], 'kmap')", label='still-a-mapping'),
+                                Clause(ONLY_ATTR, label='only-this-attribute-changes'),
+                                Clause('keys(%s) == keys(%s)[:_i3]' % (MM, DD), label='defaults-so-far-in-order'),
+                                Clause(ENTRY_SHAPE, label='entries-keep-their-shape'),
+                                Clause("forall('str', lambda x: implies(x in %s, x in %s and mitem_conv(ci, %s[x], %s[x])))"
+                                       % (MM, DD, DD, MM), label='entries-so-far-converted')],
+                     hints=['mitem_conv(ci, %s[key], %s[key])' % (DD, MM)],
+                     locals={'key': 'str', 'val': 'MItem'}, modifies=['self._values']),
+                # wildcard key: every entry converted in place
+                _kmap_loop('_i4', 'mitem_conv(ci, %(b)s, %(a)s)')])
 
 J_ATTR = 'val(self.type._children[j][1].attribute)'
 DONE_J = ('forall(lambda j: implies(0 <= j and j < _i0, '
@@ -180,9 +257,16 @@ DONE_J = ('forall(lambda j: implies(0 <= j and j < _i0, '
           'self._values[%s] == complete_slot(self.type._children[j][1], old(self._values)[%s])))' % (J_ATTR, J_ATTR, J_ATTR))
 TODO_J = ('forall(lambda j: implies(_i0 <= j and j < len(self.type._children), '
           'self._values[%s] == old(self._values)[%s]))' % (J_ATTR, J_ATTR))
+NOT_FINISHED = Clause('not self.finished', assumed=True, label='finished-at-most-once (protocol of the parser: every '
+                      'section it opens is closed exactly once; ASSUMED at the call sites, see DESIGN 10.8)')
 contract('matcher.BaseMatcher.finish', returns='Ref[matcher.SectionValue]', fresh_result=True,
-         modifies=['self._values', 'self.handlers.items'],
+         requires=[NOT_FINISHED],
+         modifies=['self._values', 'self.handlers.items', 'self.finished'],
          asserts=[At('forall(lambda j: implies(0 <= j and j < len(self.type._children), '
+                     'self._values[%s] == old(self._values)[%s] or self._values[%s] == default_of(self.type._children[j][1])))'
+                     % (J_ATTR, J_ATTR, J_ATTR), call='self.constuct',
+                     label='every-slot-is-what-was-collected-or-the-declared-default'),
+                  At('forall(lambda j: implies(0 <= j and j < len(self.type._children), '
                      'self._values[%s] == complete_slot(self.type._children[j][1], old(self._values)[%s])))' % (J_ATTR, J_ATTR),
                      call='self.constuct', carries='C02',
                      label='defaults-filled-in-where-the-text-gave-nothing-before-conversion')],
@@ -199,6 +283,7 @@ contract('matcher.BaseMatcher.finish', returns='Ref[matcher.SectionValue]', fres
                        carries='C01', label='something-required-is-missing')],
          hints=['first_incomplete(self.type, old(self._values), _i0)'],
          loops=[Loop(invariant=[Clause(DONE_J, label='children-so-far-complete-and-filled'),
+                                Clause('not self.finished'),
                                 Clause(TODO_J, label='later-children-untouched'),
                                 Clause('keys(self._values) == keys(old(self._values))', label='same-attributes'),
                                 Clause('first_incomplete(self.type, old(self._values), _i0) == '
@@ -208,7 +293,8 @@ contract('matcher.BaseMatcher.finish', returns='Ref[matcher.SectionValue]', fres
                      modifies=['self._values'])])
 
 contract('matcher.SchemaMatcher.finish', returns='Opaque[PyVal]',
-         modifies=['self._values', 'self.handlers.items'],
+         requires=[NOT_FINISHED],
+         modifies=['self._values', 'self.handlers.items', 'self.finished'],
          asserts=[At("args[0]._matcher == self and args[0]._dict == self._values and args[0]._name is None and "
                      "args[0]._attributes == keys(self._values)", call='self.type.datatype', carries='C02',
                      label='schema-datatype-applied-to-the-top-level-value')],
@@ -217,3 +303,6 @@ contract('matcher.SchemaMatcher.finish', returns='Opaque[PyVal]',
                          label='schema-level-handler-entry-last-with-the-converted-top-value')],
          raises=[Raise('ZConfig.ConfigurationError+', carries='C01', label='not-conforming'),
                  Raise('ValueError', label='the schema datatype itself raised (passes through unchanged, C07)')])
+
+contract('matcher.SectionValue.getSectionDefinition', returns='Ref[info.SectionType]', pure=True,
+         ensures=[Clause('result == self._matcher.type', carries='C02', label='type-of-the-section')])
